@@ -328,11 +328,11 @@ def p_c10(prop, tier):
 
 def p_c11(prop, tier):
     if tier == "quick":
-        jobs = [Job("eng_moderate", c, pr, shards=n, budget=B(14)) for (c, pr, n) in [("default", "rel", 5), ("compact", "rel", 5), ("default", "chk", 2), ("compact", "chk", 2), ("nostd+compact", "rel", 2)]]
+        jobs = [Job("eng_moderate", c, pr, shards=n, budget=B(14), args=["--small-w", "384"]) for (c, pr, n) in [("default", "rel", 5), ("compact", "rel", 5), ("default", "chk", 2), ("compact", "chk", 2), ("nostd+compact", "rel", 2)]]
     else:
-        jobs = [Job("eng_moderate", c, pr, shards=n, budget=B(150)) for (c, pr, n) in [("default", "rel", 8), ("compact", "rel", 8), ("default", "chk", 4), ("compact", "chk", 4), ("nostd+compact", "rel", 4), ("alloc", "rel", 2), ("compact+alloc", "rel", 2)]]
+        jobs = [Job("eng_moderate", c, pr, shards=n, budget=B(150), args=["--small-w", "16384" if pr == "rel" and c in ("default", "compact") else "1024"]) for (c, pr, n) in [("default", "rel", 8), ("compact", "rel", 8), ("default", "chk", 4), ("compact", "chk", 4), ("nostd+compact", "rel", 4), ("alloc", "rel", 2), ("compact+alloc", "rel", 2)]]
     rule = ("(w, q, truncated) triples fed directly to moderate_path / lemire / bellerophon for f32 and f64: the whole continued-fraction corpus (w*10^q within ~2^-100..2^-120 of a midpoint or a float) with w-1, w, w+1, exact and truncated; "
-            "15..20-digit prefixes of exact midpoint/float expansions as (w,q) and (w+1,q); 19-digit exact ties inside and just outside the tie windows (also unnormalised w*10^k); structured w (0, 1, 2^k+-2, 10^k+-2, u64::MAX) and q at and beyond every table end and early-out up to i32::MIN/MAX; uniform random. "
+            "every significand below 384 (quick) / 16384 (thorough) x every decimal exponent in [-350,315] (f64) / [-70,45] (f32) x exact/truncated (bounded-exhaustive); 15..20-digit prefixes of exact midpoint/float expansions as (w,q) and (w+1,q); 19-digit exact ties inside and just outside the tie windows (also unnormalised w*10^k); structured w (0, 1, 2^k+-2, 10^k+-2, u64::MAX) and q at and beyond every table end and early-out up to i32::MIN/MAX; uniform random. "
             "A definite answer is judged by the exact oracle against w*10^q and, when truncated, against the whole interval [w, w+1)*10^q; declining is never a violation. Non-trivial = definite answer; distinct = distinct (w, q, truncated, format).")
     return generic(prop, tier, jobs, rule, ["truncated is only combined with 1 <= w <= u64::MAX-1 (what the digit accumulator can produce; w+1 would overflow otherwise)"] + ASSUME_ORACLE)
 
@@ -401,10 +401,12 @@ def p_c13(prop, tier):
         jobs = [Job("eng_bigint", c, pr, shards=n, budget=B(120)) for (c, pr, n) in [("default", "rel", 4), ("alloc", "rel", 4), ("compact", "rel", 2), ("nostd+compact", "rel", 2), ("default", "chk", 4), ("alloc", "chk", 4)]]
         mcells = [(c, p, i) for c in ("default", "alloc") for p in ("rel", "chk") for i in ("miri-sb", "miri-tb")]
         jobs += [Job("eng_bigint", c, p, instr=i, shards=4, budget=3000, args=["--max-evals", str(int(40 * common.budget_scale())), "--history-ops", "200"], timeout=3000) for (c, p, i) in mcells]
+        # valgrind memcheck on the optimised binary: use of never-written slots shows as "uninitialised value" there
+        jobs += [Job("eng_bigint", c, "rel", instr="valgrind", shards=3, budget=B(60), timeout=3000) for c in ("default", "alloc")]
     rule = ("operation histories (20..400 operations each, phases that fill to the capacity, hover there and drain) over the safe API of the vector: new / from_u64 / try_from, try_push, pop, try_extend (to exactly 62 and to 63), "
             "try_resize (grow / shrink / same / beyond capacity), normalize, add_small, mul_small (with carries at capacity), clone, ==/cmp against other vectors, hi64, indexed writes; after every operation "
             "length, contents (through Deref), is_empty, capacity and return value are compared with an executable model (a plain sequence with capacity 62 for the stack vector, unbounded for the heap vector); "
-            "a failed push/extend/resize must change nothing. The same engine with the same model runs under Miri (Stacked + Tree Borrows: reads of never-written slots, out-of-range writes are reported there). "
+            "a failed push/extend/resize must change nothing. The same engine with the same model runs under Miri (Stacked + Tree Borrows: reads of never-written slots, out-of-range writes are reported there) and, in thorough, under valgrind memcheck. "
             "Non-trivial/distinct = distinct history (hash of the operation trace).")
 
     def post(m, results, cov, violations, inconclusive, workdir, sd):
@@ -412,6 +414,39 @@ def p_c13(prop, tier):
         cov["interpreter_operations"] = sum(r.summary.get("counters", {}).get("history.operations", 0) for r in results if r.summary and r.job.instr.startswith("miri"))
 
     return generic(prop, tier, jobs, rule, ["numeric ordering/equality is judged on normalized vectors (what every caller passes); on the heap vector in debug-assertion builds histories stay within 62 limbs (HeapVec::set_len debug-asserts that bound)"] + ASSUME_ORACLE[1:], post=post)
+
+
+def generator_scripts_opinion():
+    """Third opinion for C14: run the repository's own etc/*.py generators and compare their output with the table
+    sources, number by number. A disagreement is inconclusive (the definitions in pyoracle/consts.py are the judge)."""
+    out = {"disagreements": []}
+    try:
+        src = open(os.path.join(common.REPO, "src/table_lemire.rs")).read()
+        gen = subprocess.run([PY, os.path.join(common.REPO, "etc/lemire_table.py")], stdout=subprocess.PIPE, stderr=subprocess.PIPE, text=True, timeout=120).stdout
+        pat = re.compile(r"\(0x([0-9a-f]+), 0x([0-9a-f]+)\)")
+        a = pat.findall(src)
+        b = pat.findall(gen)
+        out["lemire_table_entries_compared"] = min(len(a), len(b))
+        if len(a) != len(b):
+            out["disagreements"].append("lemire: %d entries in the source, %d from etc/lemire_table.py" % (len(a), len(b)))
+        for i, (x, y) in enumerate(zip(a, b)):
+            if (int(x[0], 16), int(x[1], 16)) != (int(y[0], 16), int(y[1], 16)):
+                out["disagreements"].append("lemire entry %d (5^%d): source %s, script %s" % (i, i - 342, x, y))
+                break
+        src = open(os.path.join(common.REPO, "src/table_bellerophon.rs")).read()
+        gen = subprocess.run([PY, os.path.join(common.REPO, "etc/bellerophon_table.py")], stdout=subprocess.PIPE, stderr=subprocess.PIPE, text=True, timeout=120).stdout
+
+        def mant(txt, name):
+            m = re.search(r"(?:const|static) " + name + r"[^=]*=\s*\[(.*?)\];", txt, re.S)
+            return [int(x) for x in re.findall(r"^\s*(\d+),", m.group(1), re.M)] if m else []
+        for name in ("SMALL_MANTISSA", "LARGE_MANTISSA"):
+            a, b = mant(src, "BASE10_" + name), mant(gen, "BASE10_" + name)
+            out["bellerophon_%s_compared" % name.lower()] = min(len(a), len(b))
+            if a != b:
+                out["disagreements"].append("bellerophon %s: source and etc/bellerophon_table.py differ (%d vs %d entries)" % (name, len(a), len(b)))
+    except Exception as e:  # the third opinion is optional
+        out["error"] = str(e)
+    return out
 
 
 def p_c14(prop, tier):
@@ -453,7 +488,10 @@ def p_c14(prop, tier):
         if len(samples) < 8:
             lines = open(dump).read().splitlines()
             samples += [lines[i] for i in (5, 60, 200, 700) if i < len(lines)]
-    cov = {"evaluations": total, "distinct_nontrivial": total, "exhaustive": not inconclusive,
+    third = generator_scripts_opinion()
+    for msg in third.get("disagreements", []):
+        inconclusive.append("the repository's own generator script disagrees with the table source: %s" % msg)
+    cov = {"evaluations": total, "distinct_nontrivial": total, "exhaustive": not inconclusive, "generator_scripts_third_opinion": {k: v for k, v in third.items() if k != "disagreements"},
            "rule": "complete enumeration: every table entry / computed power that the running program of each configuration sees (651 x 128-bit Eisel-Lemire significands and its exponent map for every q, 28+20 small integer powers through the crate's own accessor, 23+11 float powers as returned by pow_fast_path - table, std powf or the bundled libm -, the 5^135 big-integer constant, 10+66+10 Bellerophon entries with their binary exponents) is compared with its definition computed from Python integers. Every entry is distinct and non-trivial.",
            "samples": samples[:12], "entries_checked_per_configuration": per}
     write_evidence(prop, tier, sd, "exploration", cov, ["float powers are decided for this platform's libm (glibc) and the bundled libm as compiled here", "definitions are my reading of the property text and of the generators in etc/ (re-implemented, not imported)"], time.time() - t0, len(violations))
@@ -744,6 +782,29 @@ def replay(prop, path):
         print(str(e))
         print("INCONCLUSIVE: property=%s harness does not build" % prop)
         return 3
+    if eng == "eng_consts":
+        try:
+            bindir = build(cfg, prof, ["eng_consts"])
+        except BuildError as e:
+            print(str(e))
+            print("INCONCLUSIVE: property=%s harness does not build" % prop)
+            return 3
+        dump = os.path.join(workdir, "replay-dump.txt")
+        p = subprocess.run([os.path.join(bindir, "eng_consts")], stdout=open(dump, "w"), stderr=subprocess.PIPE, env=base_env(), timeout=120)
+        if p.returncode != 0:
+            print("constant dump ended abnormally: %s" % tail(p.stderr.decode("utf-8", "replace"), 5))
+            print("VIOLATION property=%s replay=%s" % (prop, path))
+            return 1
+        q = subprocess.run([PY, os.path.join(VERIF, "pyoracle", "consts.py"), dump], stdout=subprocess.PIPE, stderr=subprocess.PIPE, text=True, timeout=300)
+        res = json.loads(q.stdout)
+        want = (body.get("constant") or {}).get("constant")
+        bad = [mm for mm in res["mismatches"] if want is None or mm["constant"] == want]
+        if bad:
+            print(json.dumps(bad[0]))
+            print("VIOLATION property=%s replay=%s" % (prop, path))
+            return 1
+        print("replay: %s equals its definition in %s/%s (%d constants compared)" % (want or "every constant", cfg, prof, res["total"]))
+        return 0
     if body.get("shard_replay"):
         sr = body["shard_replay"]
         job = Job(eng, cfg, prof, instr=body.get("instr", "native"), shards=sr["shards"], budget=sr["budget"], args=sr["job_args"])
